@@ -189,7 +189,7 @@ ASSUME LookGridLaw == \A l \in LookLevels : (\A k \in LookKinds : \E g1 \in Look
                                              /\ (\A q \in LookPositions : \E g2 \in LookGrid : g2[2] = q /\ g2[3] = l)
 LoopLookNames == {f.fam : f \in LoopLookFamilies}
 Families == LongRunFamilies \cup ShortRunFamilies \cup LoopLookFamilies
-Lengths == IF Quick THEN {10, 100, 10000} ELSE {10, 30, 100, 1000, 10000}
+Lengths == IF Quick THEN {10, 100, 10000} ELSE {10, 30, 100, 10000}          \* (1000 dropped in the last round: tier time)
 \* the real budgets (regex/vm.py RegexVM defaults)
 StepLimit == 100000
 StackLimit == 10000
@@ -202,7 +202,7 @@ RealPollInterval == 100
 \* cap: which counting cap bounds the run ("main": 1.5 / 8 million steps, "aux": 0.4 / 1.5 million, "look": 0.2 / 2 million; quick / thorough);
 \* lens: the subject lengths the configuration is run with
 Deadlines == {60, 20000}                                    \* shorter than one real poll interval; many poll intervals
-PollIntervals == IF Quick THEN {1, RealPollInterval} ELSE {1, 7, RealPollInterval, 1000}
+PollIntervals == IF Quick THEN {1, RealPollInterval} ELSE {1, 7, RealPollInterval}
 \* arg: how the pattern reaches the entry point - "regexp": a RegExp object R = new RegExp(P, F); "string" / "strobj": the pattern text P
 \* resp. new String(P) given to an entry point that builds the matcher itself (PatArgs below)
 ApiCfg(iv, d, cap, lens) == [mode |-> "api", interval |-> iv, op |-> "exec", fl |-> <<>>, form |-> "bare", deadline |-> d, cap |-> cap, lens |-> lens, arg |-> "regexp"]
